@@ -18,6 +18,9 @@ type Event struct {
 	User bool   `json:"u,omitempty"`
 	// Fault marks a non-default environment answer (failed write, crash point); bounded separately (deviations).
 	Fault bool `json:"f,omitempty"`
+	// C is the vector of non-default environment choices (map iteration order, list order) taken while the
+	// event was handled; empty = all defaults.
+	C []int `json:"c,omitempty"`
 }
 
 func (e Event) String() string {
@@ -53,6 +56,11 @@ type BFS struct {
 	Res   *Result
 	// Deadline: an internal deadline never produces a failure; the search stops and reports exhaustive:false.
 	Deadline time.Time
+	// ChoiceKinds, when set, makes every transition explore the environment choice points of these kinds that
+	// are met while the event is handled: the default vector plus every vector with one non-default answer
+	// (MaxChoiceDev per history). Each vector is a distinct successor event (Event.C).
+	ChoiceKinds  []string
+	MaxChoiceDev int
 
 	seen map[string]bool
 }
@@ -77,10 +85,29 @@ func faultCount(h []Event) int {
 	return n
 }
 
+func choiceCount(h []Event) int {
+	n := 0
+	for _, e := range h {
+		if len(e.C) > 0 {
+			n++
+		}
+	}
+	return n
+}
+
+// apply delivers one event under its recorded choice vector; returns the chooser (for its trace).
+func (b *BFS) apply(s System, e Event) *Chooser {
+	if len(b.ChoiceKinds) == 0 {
+		s.Apply(e)
+		return nil
+	}
+	return RunWithChoices(e.C, b.ChoiceKinds, func(*Chooser) { s.Apply(e) })
+}
+
 func (b *BFS) build(h []Event) System {
 	s := b.New()
 	for _, e := range h {
-		s.Apply(e)
+		b.apply(s, e)
 	}
 	return s
 }
@@ -127,29 +154,45 @@ func (b *BFS) Run() bool {
 					b.Res.Count("horizon_hits", 1)
 					continue
 				}
-				s2 := sys
-				if i > 0 || sys == nil {
-					s2 = b.build(h)
-				}
-				sys = nil // the first instance is consumed by the first applied event
-				var pre interface{}
-				if b.Before != nil {
-					pre = b.Before(s2, ev)
-				}
-				s2.Apply(ev)
-				b.Res.Count("transitions", 1)
-				k := s2.Key()
-				isNew := !b.seen[k]
-				nh := append(append(make([]Event, 0, len(h)+1), h...), ev)
-				if b.After != nil {
-					b.After(s2, nh, ev, pre, isNew)
-				}
-				if isNew {
-					b.seen[k] = true
-					b.Res.Count("states", 1)
-					b.Res.Max("max_history_len", int64(len(nh)))
-					b.Res.Max("max_user_depth", int64(userCount(nh)))
-					frontier = append(frontier, nh)
+				// the event under its default choices, then - if choice exploration is on - under every vector
+				// with one non-default answer
+				variants := []Event{ev}
+				for vi := 0; vi < len(variants); vi++ {
+					ev := variants[vi]
+					s2 := sys
+					if i > 0 || vi > 0 || sys == nil {
+						s2 = b.build(h)
+					}
+					sys = nil // the first instance is consumed by the first applied event
+					var pre interface{}
+					if b.Before != nil {
+						pre = b.Before(s2, ev)
+					}
+					ch := b.apply(s2, ev)
+					if vi == 0 && ch != nil && choiceCount(h) < b.MaxChoiceDev {
+						for pi := range ch.Trace {
+							for alt := 1; alt < ch.Ns[pi]; alt++ {
+								v := ev
+								v.C = append(append(make([]int, 0, pi+1), ch.Trace[:pi]...), alt)
+								variants = append(variants, v)
+							}
+						}
+						b.Res.Max("max_choice_points_per_transition", int64(len(ch.Trace)))
+					}
+					b.Res.Count("transitions", 1)
+					k := s2.Key()
+					isNew := !b.seen[k]
+					nh := append(append(make([]Event, 0, len(h)+1), h...), ev)
+					if b.After != nil {
+						b.After(s2, nh, ev, pre, isNew)
+					}
+					if isNew {
+						b.seen[k] = true
+						b.Res.Count("states", 1)
+						b.Res.Max("max_history_len", int64(len(nh)))
+						b.Res.Max("max_user_depth", int64(userCount(nh)))
+						frontier = append(frontier, nh)
+					}
 				}
 			}
 		}
@@ -165,7 +208,7 @@ func (b *BFS) Replay(h []Event) System {
 		if b.Before != nil {
 			pre = b.Before(s, e)
 		}
-		s.Apply(e)
+		b.apply(s, e)
 		if b.After != nil {
 			b.After(s, h[:i+1], e, pre, true)
 		}
